@@ -17,7 +17,9 @@ WS = re.compile(r"\s+")
 
 def literals(text: str) -> list:
     """the literal spans of a document, in order, as the parser reads them"""
-    from flowmark.linewrapping.tag_handling import TEMPLATE_TAG_PATTERN
+    # template tags as the property text names them (not the implementation's pattern), found in the text of one inline scope with its
+    # soft line breaks, so that a tag written across two source lines is one tag on both sides of the comparison
+    spec_tag = re.compile(r"\{%.*?%\}|\{#.*?#\}|\{\{.*?\}\}|<!--.*?-->", re.S)
     out = []
 
     def walk(t):
@@ -45,10 +47,13 @@ def literals(text: str) -> list:
             out.append(("footref", t.get("label")))
         elif n == "FootnoteDef":
             out.append(("footdef", t.get("label")))
-        elif n == "RawText":
-            for m in TEMPLATE_TAG_PATTERN.finditer(t.get("s", "")):
-                out.append(("tag", WS.sub(" ", m.group(0))))
-        for k in t.get("c", []):
+        kids = t.get("c", [])
+        if any(k["t"] == "RawText" for k in kids):
+            flat = "".join(k.get("s", "") if k["t"] == "RawText" else ("\n" if k["t"] == "LineBreak" and k.get("soft") else "\x00") for k in kids)
+            for m in spec_tag.finditer(flat):
+                if "\x00" not in m.group(0):
+                    out.append(("tag", WS.sub(" ", m.group(0))))
+        for k in kids:
             walk(k)
     tree = mdast.doc_tree(text)
     walk(tree)
@@ -97,7 +102,8 @@ def nest(template: str, lines: list[str]) -> str:
 def gen_indented_code_doc(rng) -> str:
     """indented code blocks (rendered as fenced ones: the fence has to be chosen from the content) and fenced blocks whose
     opening fence is itself indented, with fence-like content lines at every indentation"""
-    lines = [rng.choice(["```", " ```", "  ```", "   ```", "    ```", "~~~", " ~~~", "```js", "  ````", "x", "", "- y", "   `````", "wait...what", "say \"hi\"... ok", "a...b"]) for _ in range(rng.randint(1, 6))]
+    lines = [rng.choice(["```", " ```", "  ```", "   ```", "    ```", "~~~", " ~~~", "```js", "  ````", "x", "", "- y", "   `````", "wait...what", "say \"hi\"... ok", "a...b",
+                         "``` ", "```\t", " ````  ", "~~~ ", "   ~~~~\t "]) for _ in range(rng.randint(1, 6))]
     if rng.random() < 0.5:
         block = ["    " + l if l else "" for l in lines]
         while block and not block[0].strip():
@@ -131,6 +137,7 @@ def gen_code_doc(rng) -> str:
 SPANS = ["`a  b`", "`` ` ``", "``` `` ```", "`'q' \"d\" it's...`", "`{% x %}`", "<span class=\"a  b\" title='it...s'>", "<b>", "{% tag a=\"x\"  b='y' %}", "{{ v | f('a') }}",
          "{# it's \"c\"... #}", "<!-- 'c' ... -->", "<http://ex.com/a_b?c='d'>", "http://bare.url/it's...x", "[t](http://ex.com/a_(b)_c \"T 'q'...\")", "[t](</u v> 'it...s')",
          "![a](i.png \"x...y\")", "[t][r 1]", "[r 1]", "[t](/u2)", "[t](/u2 \"Other\")", "[t](/u2 \"Title two\")", "note[^n]", "\\*", "\\.", "1\\.", "\\_x\\_", "a\\.b",
+         "{% field a=\"x\"\nhint=\"First, middle... and last\" %}", "{{ v |\nf('it...s') }}", "<!-- wait...\nmore 'q' -->",
          "[t](a\\\\*b)", "[t](<a\\> b>)", "[t](C:\\dir\\f)", "[t](\\<a)", "[t](a\\)b)", "[t](/p 't\\\\')", "[t](/p \"a\\\\*b\")", "![i](<a\\\\>)"]
 REFS = "\n\n[r2]: /u2 \"Title two\"\n[r 1]: http://ex.com/q?a=\"b\"...c \"T 'q' it's...\"\n\n[^n]: foot 'note'..."
 
@@ -149,7 +156,8 @@ def gen_span_doc(rng) -> str:
     if rng.random() < 0.3:
         text = "# " + text
     elif rng.random() < 0.3:
-        text = "| " + text.replace("|", "/") + " | x |\n|---|---|\n| " + rng.choice(SPANS).replace("|", "/") + " | y |"
+        text = "| " + text.replace("|", "/").replace("\n", " ") + " | x |\n|---|---|\n| " + rng.choice(SPANS).replace("|", "/").replace("\n", " ") + " | " + \
+            rng.choice(["y", "`a\\\\\\|b`", "C:\\\\\\|D", "<kbd title=\"x\\\\\\|y\">", "`p\\|q`"]) + " |"
     elif rng.random() < 0.3:
         text = "- " + text
     return text + REFS + "\n"
